@@ -125,7 +125,7 @@ def cmd_check(args):
         u, cfg, vac, path, text, log = j
         rs = []
         for s in (seeds if not vac else [None]):
-            rs.append(M.run_verus(path, seed=s))
+            rs.append(M.run_verus(path, seed=s, use_cache=(tier == 'quick')))
         return j, rs
 
     results = []
@@ -134,6 +134,7 @@ def cmd_check(args):
             results.append((j, rs))
 
     violations, other_fail, functions = [], [], []
+    cache_hits = cache_misses = 0
     obligations = {}     # key -> dict
     verified_fns = 0
     solver_ms = 0
@@ -142,6 +143,10 @@ def cmd_check(args):
     for (u, cfg, vac, path, text, log), rs in results:
         fmap = M.FileMap(text, u.props)
         for r in rs:
+            if r.get('cached'):
+                cache_hits += 1
+            else:
+                cache_misses += 1
             if r.get('tool_error'):
                 undecided.append(dict(unit=u.name, cfg=cfg, kind='tool', message=r['tool_error'][:600]))
                 continue
@@ -255,6 +260,7 @@ def cmd_check(args):
             trusted_base=TRUSTED_BASE,
             units=[dict(unit=u.name, configs=u.configs) for u in cone],
             files_verified=files, verus_functions_verified=verified_fns,
+            verus_runs=dict(executed_now=cache_misses, reused_identical_file=cache_hits, note='quick tier reuses the verdict of a byte-identical generated file (same Verus version, rlimit, seed) from an earlier check invocation on this machine; thorough tier always executes; VX_NO_CACHE=1 disables'),
             functions_under_contract=sorted(set(functions)),
             by_backend=dict(verus_z3=n_ok, kani_cbmc_complete=0, kani_cbmc_bounded=sum(1 for b in bounded if b['status'] == 'SUCCESSFUL')),
             bounded_checks=[dict(harness=b['harness'], status=b['status'], bound=b['bound'], wall_s=b['wall_s']) for b in bounded],
